@@ -519,6 +519,103 @@ func racingVerify(seed int64, tier string) {
 	}
 }
 
+// snapshotReaders: readers take GetStump() snapshots in a tight loop while a writer applies and undoes
+// blocks.  Every snapshot must be the (roots, leaf count) of a state that existed between two blocks:
+// the writer publishes the state it is about to produce before it calls Modify/Undo, and the readers'
+// snapshots are checked against the published set afterwards.
+func snapshotReaders(seed int64, tier string) {
+	rng := rand.New(rand.NewSource(seed + 991))
+	iters := 600
+	if tier == "thorough" {
+		iters = 6000
+	}
+	key := func(n uint64, roots []u.Hash) string { return fmt.Sprintf("%d:%s", n, hs(roots)) }
+	for _, full := range []bool{true, false} {
+		rf := &refForest{}
+		m := u.NewMapPollard(full)
+		m.TotalRows = []uint8{0, 63}[rng.Intn(2)]
+		var mu sync.Mutex
+		known := map[string]bool{key(0, nil): true}
+		publish := func(r *refForest) {
+			mu.Lock()
+			known[key(r.n(), r.roots())] = true
+			mu.Unlock()
+		}
+		stop := make(chan struct{})
+		var wg sync.WaitGroup
+		seen := make([]map[string]bool, 6)
+		for r := 0; r < 6; r++ {
+			seen[r] = map[string]bool{}
+			wg.Add(1)
+			go func(r int) {
+				defer wg.Done()
+				for {
+					select {
+					case <-stop:
+						return
+					default:
+					}
+					st := m.GetStump()
+					seen[r][key(st.NumLeaves, st.Roots)] = true
+				}
+			}(r)
+		}
+		type rec struct {
+			dels, adds []u.Hash
+			proof      u.Proof
+			prev       []u.Hash
+			before     *refForest
+		}
+		var hist []rec
+		for it := 0; it < iters; it++ {
+			if rng.Intn(4) == 0 && len(hist) > 0 {
+				r := hist[len(hist)-1]
+				hist = hist[:len(hist)-1]
+				publish(r.before)
+				m.Undo(uint64(len(r.adds)), r.proof, r.dels, r.prev)
+				rf = r.before
+				continue
+			}
+			dels, _ := pickDels(rng, rf)
+			if len(dels) > 3 {
+				dels = dels[:3]
+			}
+			adds := freshLeaves(1 + rng.Intn(4))
+			proof, _ := rf.prove(dels)
+			l := toLeaves(adds)
+			for i := range l {
+				l[i].Remember = rng.Intn(3) == 0
+			}
+			if !full && len(dels) > 0 {
+				m.Verify(dels, proof, true)
+			}
+			hist = append(hist, rec{dels, adds, proof, rf.roots(), rf.clone()})
+			next := rf.clone()
+			next.apply(dels, adds)
+			publish(next)
+			m.Modify(l, dels, proof)
+			rf = next
+			if rf.n() > 200 {
+				break
+			}
+		}
+		close(stop)
+		wg.Wait()
+		for r := range seen {
+			for k := range seen[r] {
+				if !known[k] {
+					n := k
+					if len(n) > 90 {
+						n = n[:90] + "..."
+					}
+					fmt.Fprintf(os.Stderr, "VERIF-DIVERGED GetStump returned a (leaf count, roots) pair that is the state of no block boundary (full=%v): %s\n", full, n)
+					return
+				}
+			}
+		}
+	}
+}
+
 var raceFn = regexp.MustCompile(`github.com/utreexo/utreexo\.\(\*MapPollard\)\.(\w+)\(\)`)
 
 func genC12(cfg runCfg, e *emitter, rng *rand.Rand) {
@@ -569,7 +666,7 @@ func genC12(cfg runCfg, e *emitter, rng *rand.Rand) {
 	}
 	for _, l := range strings.Split(stderr.String(), "\n") {
 		if strings.HasPrefix(l, "VERIF-DIVERGED") {
-			e.hfail("mixed-state.racing-verify", "%s", l)
+			e.hfail("mixed-state.concurrent", "%s", l)
 		}
 	}
 	e.stats["race_reports"] = len(reports) - 1
